@@ -17,6 +17,7 @@ namespace LolHtml.Lane
 def registry : List (String × (String → String)) :=
   [ ("echo", Echo.run),
     ("lex", Lex.run),
+    ("fault", Lex.runFault),
     ("selpure", SelPure.run),
     ("mem", Mem.run),
     ("memts", MemTs.run),
